@@ -464,7 +464,8 @@ class Body:
                 # captured place: expand the upvar's path (`*self.state.x`) into pseudo field projections
                 name = self.d["upvars"][pr[0]["f"]]["name"].lstrip("*&")
                 segs = [x for x in name.split(".")[1:] if x] if "." in name else [name]
-                pr = [pr[0]] + [{"f": -1, "of": "?upvar", "n": sg} for sg in segs] + pr[1:]
+                # a captured plain variable (`solvables`) is not a field path of some state struct: marked as such
+                pr = [pr[0]] + [{"f": -1, "of": "?upvar", "n": sg, **({"var": True} if "." not in name else {})} for sg in segs] + pr[1:]
             if pr:
                 proj = pr + proj
             if 1 <= l <= self.d["arg_count"]:
